@@ -349,7 +349,10 @@ class GreedySpan:
             # span will have multiple starting points, contract these
             o_nodes = list(region)
             o_inputs = [inputs[i] for i in o_nodes]
-            o_ssa_path = ssa_greedy_optimize(o_inputs, output, size_dict)
+            # n.b. no simplifications -> only want pairwise contractions
+            o_ssa_path = ssa_greedy_optimize(
+                o_inputs, output, size_dict, simplify=False
+            )
             seq = []
             for pi, pj in o_ssa_path:
                 merges[o_nodes[pi]] = o_nodes[pj]
